@@ -132,6 +132,17 @@ def writeSol {D : Type} (c : Codec D) (s : Sol D) : Bytes :=
   ++ str "objno " ++ encInt (s.objno - 1) ++ sp ++ encInt s.status ++ nl
   ++ writeSuffixes c s.sufs
 
+/-- The format strings that `SuffixValueWriter::Visit` (int, double), `WriteSuffixes` (header + name, table) and `WriteSolFile`
+(Options, option count, each option, the four counts, dual value, primal value, objno line) pass to `print`, in source order,
+as `writeSol` above renders them (`{}` of an integer = `encInt`/`encNat`, `{:.16}` of a double = `Codec.enc`).
+Tied to include/mp/sol.h by `C05_gen_writer_formats` (the generated list is re-read from the source on every run). -/
+def writerFormats : List String :=
+  ["{} {}\\n", "{} {:.16}\\n", "suffix {} {} {} {} {}\\n{}\\n", "{}\\n", "Options\\n", "{}\\n", "{}\\n", "{0}\\n{1}\\n{2}\\n{3}\\n",
+   "{:.16}\\n", "{:.16}\\n", "objno {} {}\\n"]
+
+/-- order of the suffix kinds in `WriteSolFile` (the order of `Sol.sufs`) -/
+def writerKindOrder : List String := ["suf::VAR", "suf::CON", "suf::OBJ", "suf::PROBLEM"]
+
 /-- executable form of the codec hypothesis `GoodNum` (C05/Lemmas.lean): evaluated by the driver on every real -/
 def goodNumB (t : Bytes) : Bool :=
   decide (t.length ≤ 500) && t.all (fun c => c != 10 && c != 0) && (decstring (t ++ [10]) == some t)
